@@ -19,15 +19,79 @@ def fl(x):
 
 
 # ------------------------------------------------------------------ building the Python objects
-def make_law(d):
+class Owned:
+    """the caller-owned containers handed to the implementation in one case.  After the measured call has returned
+    the harness overwrites every one of them in place (`scramble`), as a caller reusing its buffers would; only then
+    is the returned object read, at wavelengths kept in separate copies.  (The arrays a SourceSpectrum / ReddeningLaw
+    was *constructed* from are the operand itself on the current code - Empirical1D keeps them - so the source's
+    table arrays are not scrambled; the law's are, because the law is not read again.)"""
+
+    def __init__(self):
+        self.items = []
+
+    def ndarray(self, vals):
+        a = np.array(vals, dtype=float)
+        self.items.append(a)
+        return a
+
+    def quantity(self, vals, unit):
+        import astropy.units as u
+        a = np.array(vals, dtype=float)
+        self.items.append(a)
+        return u.Quantity(a, unit, copy=False)      # a view of `a`: scrambling `a` scrambles the Quantity
+
+    def list(self, vals):
+        lst = list(vals)
+        self.items.append(lst)
+        return lst
+
+    def keep(self, obj):
+        self.items.append(obj)
+        return obj
+
+    def scramble(self, how='scale'):
+        import astropy.units as u
+        for it in self.items:
+            try:
+                if isinstance(it, u.Quantity):          # scalar E(B-V) Quantity
+                    it *= 2.0
+                elif isinstance(it, np.ndarray):
+                    if how == 'reverse' and it.size > 1:
+                        it[:] = it[::-1].copy()
+                    elif how == 'shift':
+                        it += 7.25
+                    else:
+                        it *= 1.5
+                elif isinstance(it, list):
+                    if how == 'reverse' and len(it) > 1:
+                        it[:] = it[::-1]
+                    elif how == 'shift':
+                        it[:] = [x + 7.25 for x in it]
+                    else:
+                        it[:] = [x * 1.5 for x in it]
+            except Exception:   # noqa  (an object that refuses in-place change is simply left alone)
+                pass
+
+
+def mut_of(case):
+    for k in ('wave',):
+        w = case.get(k)
+        if isinstance(w, dict) and w.get('mut'):
+            return w['mut']
+    return 'scale'
+
+
+def make_law(d, own=None):
     from synphot.models import Empirical1D
     from synphot.reddening import ReddeningLaw
-    return ReddeningLaw(Empirical1D, points=np.array([fl(x) for x in d['pts']]),
-                        lookup_table=np.array([fl(x) for x in d['vals']]), keep_neg=d['keep_neg'])
+    own = own if own is not None else Owned()
+    return ReddeningLaw(Empirical1D, points=own.ndarray([fl(x) for x in d['pts']]),
+                        lookup_table=own.ndarray([fl(x) for x in d['vals']]), keep_neg=d['keep_neg'])
 
 
-def make_ebv(d):
+def make_ebv(d, own=None):
     import astropy.units as u
+    own = own if own is not None else Owned()
     py = d['py']
     v = fl(d['v']) if d.get('v') is not None else None
     if py == 'float':
@@ -39,9 +103,9 @@ def make_ebv(d):
     if py == 'np.float32':
         return np.float32(v)
     if py == 'mag':
-        return v * u.mag
+        return own.keep(v * u.mag)
     if py == 'Magnitude':
-        return u.Magnitude(v)
+        return own.keep(u.Magnitude(v))
     if py == 'str':
         return '0.3'
     if py == 'None':
@@ -63,20 +127,23 @@ def make_ebv(d):
     raise KeyError(py)
 
 
-def make_wave(d):
+WAVE_UNITS = {'AA': 1.0, 'nm': 10.0, 'micron': 1.0e4}
+
+
+def make_wave(d, own=None):
     """wavelengths argument of extinction_curve"""
-    import astropy.units as u
+    own = own if own is not None else Owned()
     if d is None:
         return None
     if 'scalar' in d:
         return fl(d['scalar'])
-    v = [fl(x) for x in d['arr']]
     c = d.get('py', 'ndarray')
+    v = [fl(x) for x in (d['raw'] if c in ('nm', 'micron') else d['arr'])]
     if c == 'list':
-        return v
-    if c == 'AA':
-        return np.array(v) * u.AA
-    return np.array(v)
+        return own.list(v)
+    if c in WAVE_UNITS:
+        return own.quantity(v, c)
+    return own.ndarray(v)
 
 
 def make_source(d):
@@ -92,8 +159,9 @@ def make_source(d):
     raise KeyError(d['kind'])
 
 
-def make_madau_wave(d):
+def make_madau_wave(d, own=None):
     import astropy.units as u
+    own = own if own is not None else Owned()
     k = d['py']
     if k == 'scalar':
         return 1000.0
@@ -107,15 +175,13 @@ def make_madau_wave(d):
         return np.linspace(1.0, 2.0, d['n']) * u.s
     v = [fl(x) for x in d['raw']]
     if k == 'list':
-        return v
+        return own.list(v)
     if k == 'tuple':
         return tuple(v)
     if k == 'ndarray':
-        return np.array(v)
-    if k == 'AA':
-        return np.array(v) * u.AA
-    if k == 'nm':
-        return np.array(v) * u.nm
+        return own.ndarray(v)
+    if k in ('AA', 'nm'):
+        return own.quantity(v, k)
     raise KeyError(k)
 
 
@@ -157,16 +223,19 @@ def curve_outcome(curve, at):
 
 def impl_call(case):
     op = case['op']
+    own = Owned()
+    how = mut_of(case)
     if op == 'ext_curve':
         def f():
-            law = make_law(case['law'])
+            law = make_law(case['law'], own)
             for pr in case.get('prior', []):
                 # what the same law object was used for before must not matter: results discarded
                 try:
-                    law.extinction_curve(make_ebv(pr['ebv']), wavelengths=make_wave(pr['wave']))
+                    law.extinction_curve(make_ebv(pr['ebv'], own), wavelengths=make_wave(pr['wave'], own))
                 except Exception:   # noqa
                     pass
-            c = law.extinction_curve(make_ebv(case['ebv']), wavelengths=make_wave(case['wave']))
+            c = law.extinction_curve(make_ebv(case['ebv'], own), wavelengths=make_wave(case['wave'], own))
+            own.scramble(how)       # the caller reuses its buffers; the curve is read only now
             out = curve_outcome(c, [fl(x) for x in case['at']])
             out['cls'] = type(c).__name__
             out['sampleset_none'] = c.model.sampleset() is None
@@ -175,26 +244,28 @@ def impl_call(case):
     if op == 'ext_pair':
         def f():
             import astropy.units as u
-            law = make_law(case['law'])
+            law = make_law(case['law'], own)
             a, b = fl(case['a']), fl(case['b'])
-            w = make_wave(case['wave'])
+            w = make_wave(case['wave'], own)
             at = np.array([fl(x) for x in case['at']])
             ea, eb, eab, ena = a, b, a + b, -a
             if case.get('as_mag'):
-                ea, eb, eab, ena = ea * u.mag, eb * u.mag, eab * u.mag, ena * u.mag
+                ea, eb, eab, ena = [own.keep(e * u.mag) for e in (ea, eb, eab, ena)]
             ca = law.extinction_curve(ea, wavelengths=w)
             cb = law.extinction_curve(eb, wavelengths=w)
             cab = law.extinction_curve(eab, wavelengths=w)
             cna = law.extinction_curve(ena, wavelengths=w)
+            own.scramble(how)
             return {'prod': (ca * cb)(at).value.tolist(), 'sum': cab(at).value.tolist(),
                     'undo': (ca * cna)(at).value.tolist()}
         return guarded(f)
     if op == 'ext_apply':
         def f():
-            law = make_law(case['law'])
+            law = make_law(case['law'], own)
             src = make_source(case['src'])
-            c = law.extinction_curve(make_ebv(case['ebv']), wavelengths=make_wave(case['wave']))
+            c = law.extinction_curve(make_ebv(case['ebv'], own), wavelengths=make_wave(case['wave'], own))
             sp = c * src if case.get('curve_first') else src * c
+            own.scramble(how)
             at = np.array([fl(x) for x in case['at']])
             ws, ws0 = sp.waveset, src.waveset
             return {'vals': sp(at).value.tolist(), 'src': src(at).value.tolist(), 'curve': c(at).value.tolist(),
@@ -205,7 +276,8 @@ def impl_call(case):
     if op == 'madau':
         def f():
             from synphot.reddening import etau_madau
-            c = etau_madau(make_madau_wave(case['wave']), make_z(case['z']))
+            c = etau_madau(make_madau_wave(case['wave'], own), make_z(case['z']))
+            own.scramble(how)
             tab = np.asarray(c.model.lookup_table)
             if np.iscomplexobj(tab):
                 return float('nan')       # not a real-valued curve (negative Python float ** fractional)
@@ -486,6 +558,20 @@ def law_is_positive(law):
     return all(unq(v) > 0 for v in law['vals'])
 
 
+def finish_grid(rng, v):
+    """how the grid `v` (Angstrom) is handed over: container, unit, and what the caller does to it afterwards"""
+    py = rng.choice(['ndarray', 'ndarray', 'list', 'AA', 'AA', 'nm', 'micron'])
+    d = {'py': py, 'mut': rng.choice(['scale', 'scale', 'reverse', 'shift'])}
+    if py in ('nm', 'micron'):
+        import astropy.units as u
+        raw = [x / WAVE_UNITS[py] for x in v]
+        d['raw'] = qs(raw)
+        # the Angstrom values are data for the model: exactly what astropy's conversion yields
+        v = np.atleast_1d(u.Quantity(np.array(raw, dtype=float), py).to_value(u.AA, u.spectral())).tolist() if raw else []
+    d['arr'] = qs(v)
+    return d
+
+
 def gen_grid(rng, law, nmax, allow_bad=True):
     """the wavelengths argument"""
     r = rng.random()
@@ -519,7 +605,7 @@ def gen_grid(rng, law, nmax, allow_bad=True):
             v[i + 1] = v[i]
     if rng.random() < 0.3:
         v = v[::-1]
-    return {'arr': qs(v), 'py': rng.choice(['ndarray', 'list', 'AA'])}
+    return finish_grid(rng, v)
 
 
 def gen_ebv(rng, allow_bad=True):
@@ -567,7 +653,7 @@ def related_grid(rng, wave, law, nmax):
         w = [x * f for x in v]
     else:
         return gen_grid(rng, law, nmax, allow_bad=False)
-    return {'arr': qs(w), 'py': rng.choice(['ndarray', 'list', 'AA'])}
+    return finish_grid(rng, w)
 
 
 def case_ext_curve(rng, nmax):
@@ -699,7 +785,8 @@ def case_madau(rng, nmax):
     else:
         aa = list(v)
     ok = wave_error_class(aa) is None and len(aa) >= 2
-    return {'op': 'madau', 'z': z, 'wave': {'kind': 'arr', 'py': py, 'raw': qs(v), 'aa': qs(aa)},
+    return {'op': 'madau', 'z': z, 'wave': {'kind': 'arr', 'py': py, 'raw': qs(v), 'aa': qs(aa),
+                                            'mut': rng.choice(['scale', 'scale', 'reverse', 'shift'])},
             'at': qs(aa) if ok else []}
 
 
@@ -785,13 +872,17 @@ def run(rep):
     rep.rule = ('positive Empirical1D reddening laws (2..N points in 300..30000 A, R in 0.01..56, both orders, keep_neg '
                 'either way; 5% with zero/negative entries or tapered ends for model validation) x E(B-V) in [-5, 5] as '
                 'float / int / NumPy scalar / mag Quantity / Magnitude (and 6% invalid objects) x sampling grids (None = '
-                'own waveset, arrays inside/beyond the law range, on law knots, both orders, list/ndarray/Quantity; 6% '
+                'own waveset, arrays inside/beyond the law range, on law knots, both orders, list/ndarray/Quantity in AA, nm, micron; 6% '
                 'invalid, 2.5% shorter than two points; 40% of the curves are requested after 1..3 earlier requests on the same law object with grids of the same length and end points, the reversed grid, a rescaled or an unrelated grid); pairs (a, b) on the lattice 1/64 with a, b, a+b in [-5, 5]; '
                 'table / constant / Gaussian sources x curve in both operand orders; Madau: z in [0, 10] on dyadic '
                 'lattices (int, float, NumPy; plus a few z in (-1, 0), z <= -1, z in (10, 80], non-numbers) x grids of '
                 '2..N wavelengths 0.5 A .. 2 x 1216 (1+z) incl. points exactly on the region boundaries, as '
-                'list/tuple/ndarray/Quantity(AA, nm), plus too-short / 0-d / wrong-unit inputs. Non-trivial: the call '
-                'returned a curve.')
+                'list/tuple/ndarray/Quantity(AA, nm), plus too-short / 0-d / wrong-unit inputs. History after the call: every '
+                'caller-owned container handed in (wavelength grids as ndarray / list / Quantity in AA, nm, micron - also '
+                'those of the earlier requests -, the arrays the law was built from, E(B-V) Quantities, Madau wavelength '
+                'arrays) is overwritten in place (x1.5, reversed, or +7.25) after the measured call returned; the curve / '
+                'product is read only afterwards, at the original wavelengths kept in separate copies. Non-trivial: the '
+                'call returned a curve.')
     process(rep, cases)
     rep.samples = rep.samples[:4]
 
